@@ -22,6 +22,7 @@ import (
 	"strconv"
 	"strings"
 	"sync"
+	"sync/atomic"
 	"time"
 
 	"mellium.im/xmlstream"
@@ -151,6 +152,11 @@ type Case struct {
 	Fault  string // "-", "k", "k+", "Cn" (cancel the context once n events were observed)
 	// Tee: the StreamConfig carries TeeIn and TeeOut.
 	Tee bool
+	// Ctx: the kind of context whose Done() fires at the cancellation point of the case:
+	// 0 / 'c' WithCancel + cancel; 'd' WithDeadline(one hour ahead) + explicit cancel; 'p'
+	// WithTimeout(one hour) nested in a cancellable parent, the parent is cancelled; 'n'
+	// WithDeadline(near): the harness waits at the cancellation point until it has expired.
+	Ctx byte
 	// Block: a read at the end of the script blocks until the connection's deadline passes
 	// (what a silent peer looks like on a transport with deadlines) instead of returning EOF.
 	Block bool
@@ -244,6 +250,9 @@ func (c Case) Line(r Result) string {
 	}
 	if c.Tee {
 		flags += "t"
+	}
+	if c.Ctx != 0 && c.Ctx != 'c' {
+		flags += "k" + string(c.Ctx)
 	}
 	return fmt.Sprintf("run %d %s %s %s %s %s", c.St0, flags, EncCfg(c.Cfg), EncScript(r.Script), common.Join(r.Picks, ","), c.Fault)
 }
@@ -672,7 +681,7 @@ func classifyErr(err error) string {
 	case errors.Is(err, errCB):
 		return "fail:cb"
 	case errors.Is(err, errFault), errors.Is(err, io.EOF), errors.Is(err, io.ErrUnexpectedEOF),
-		errors.Is(err, context.Canceled), errors.Is(err, os.ErrDeadlineExceeded):
+		errors.Is(err, context.Canceled), errors.Is(err, context.DeadlineExceeded), errors.Is(err, os.ErrDeadlineExceeded):
 		return "fail:io"
 	case isUnexpectedEOF(err):
 		return "fail:io"
@@ -773,9 +782,9 @@ func Exec(cs Case) Result {
 	}
 	r := &runState{cs: &cs, fault: fs, script: append([]Item(nil), cs.Script...),
 		server: cs.St0&Received != 0, s2s: cs.St0&S2S != 0, pastR: make(chan struct{}), pastW: make(chan struct{}), gaveUp: map[bool]bool{}}
-	ctx, cancel := context.WithCancel(context.Background())
-	defer cancel()
-	r.cancel = cancel
+	ctx, fire, release := MakeCtx(cs.Ctx)
+	defer release()
+	r.cancel = fire
 	r.mu.Lock()
 	r.maybeCancel()
 	r.mu.Unlock()
@@ -853,6 +862,7 @@ func Exec(cs Case) Result {
 		res.Script = append([]Item(nil), r.script...)
 		res.Outcome = "STALL"
 		res.State = cs.St0
+		NoteStall()
 	}
 	for _, e := range res.Events {
 		if e.Kind == "N" && !e.Srv {
@@ -880,6 +890,9 @@ func ParseLine(line string) (Case, error) {
 	cs.WS = strings.HasPrefix(f[2], "1")
 	cs.Block = strings.Contains(f[2], "b")
 	cs.Tee = strings.Contains(f[2], "t")
+	if i := strings.Index(f[2], "k"); i >= 0 && i+1 < len(f[2]) {
+		cs.Ctx = f[2][i+1]
+	}
 	if f[3] != "-" {
 		for _, s := range strings.Split(f[3], ";") {
 			p := strings.Split(s, ":")
@@ -958,7 +971,7 @@ func isUnexpectedEOF(err error) bool {
 // are expected to end quickly (or never), so they get a short one.
 func watchdog(cs Case, fs faultSpec) time.Duration {
 	if fs.block >= 0 {
-		return 1200 * time.Millisecond
+		return 800 * time.Millisecond
 	}
 	return 10 * time.Second
 }
@@ -966,3 +979,48 @@ func watchdog(cs Case, fs faultSpec) time.Duration {
 // layerConn is a new connection layer on top of the session's connection (what STARTTLS
 // returns): a net.Conn that is not the session's own connection.
 type layerConn struct{ net.Conn }
+
+// MakeCtx builds a context of the given kind. fire makes its Done() channel fire (and returns
+// only once it has); release frees its resources.
+func MakeCtx(kind byte) (ctx context.Context, fire func(), release func()) {
+	switch kind {
+	case 'd':
+		c, cancel := context.WithDeadline(context.Background(), time.Now().Add(time.Hour))
+		return c, cancel, cancel
+	case 'p':
+		parent, pcancel := context.WithCancel(context.Background())
+		c, cancel := context.WithTimeout(parent, time.Hour)
+		return c, pcancel, func() { cancel(); pcancel() }
+	case 'n':
+		c, cancel := context.WithDeadline(context.Background(), time.Now().Add(120*time.Millisecond))
+		return c, func() { <-c.Done() }, cancel
+	}
+	c, cancel := context.WithCancel(context.Background())
+	return c, cancel, cancel
+}
+
+// CtxKinds are the kinds of context the cancellation cases run with.
+var CtxKinds = []byte{'c', 'd', 'p', 'n'}
+
+// Every stall costs a watchdog's worth of real time. Once a run has seen StallBudget of them it
+// has its failing inputs: the generators skip the remaining cases whose failure mode is a stall
+// (cancellation and blocking cases) so that a check of a library that has lost its cancellation
+// path still ends in minutes. A run without stalls never skips anything.
+const StallBudget = 24
+
+var stalls, stallSkipped int32
+
+// NoteStall records one observed stall.
+func NoteStall() { atomic.AddInt32(&stalls, 1) }
+
+// SkipForStalls reports whether the stall budget is used up (and counts the skipped case).
+func SkipForStalls() bool {
+	if atomic.LoadInt32(&stalls) < StallBudget {
+		return false
+	}
+	atomic.AddInt32(&stallSkipped, 1)
+	return true
+}
+
+// StallSkipped is the number of cases skipped because the budget was used up.
+func StallSkipped() int { return int(atomic.LoadInt32(&stallSkipped)) }
